@@ -37,7 +37,7 @@ def struct_digest(st):
                                    default=str).encode()).hexdigest()[:12]
 
 
-def solve_campaign(ctx, n_systems, gen_kw=None, case_kw=None, filt=None, variants=1, post=None, matrix=0):
+def solve_campaign(ctx, n_systems, gen_kw=None, case_kw=None, filt=None, variants=1, post=None, matrix=0, skel=0, skel_want=None):
     """generate systems, solve, validate.  filt(state_dict) selects structures of interest;
     post(system, case list, rng, next id) may append further cases for the same system"""
     res = Result()
@@ -87,6 +87,33 @@ def solve_campaign(ctx, n_systems, gen_kw=None, case_kw=None, filt=None, variant
             if post:
                 post(s, cases, rng)
         res.extra["matrix_states"] = len(picked)
+    if skel:
+        # states of the exhaustively checked skeleton model MCSkel (every small tree x liveness pattern x phase lists)
+        import skel as _sk
+        sstates, scnt = _sk.skel_states(ctx)
+        res.mc.append(scnt)
+        if not scnt["ok"]:
+            if "is violated" in scnt["out"]:
+                res.mc_failures.append("MCSkel: " + scnt["out"][scnt["out"].find("Error:"):][:3000])
+            else:
+                raise tlc.TLCError(scnt["out"][-2000:])
+        picked = _sk.pick(sstates, rng, skel, skel_want)
+        for st in picked:
+            g = gen.Gen(rng, **dict(gen_kw or {}, zero_src=0.0))
+            try:
+                s = _sk.build_skel(st, g, rng)
+            except Exception as e:
+                cases.append(drv_solve.BuildFailure(None, "skeleton", {}, e).case(len(cases)))
+                continue
+            kw = dict(case_kw(rng, s) if case_kw else {})
+            rr = kw.pop("rail_rep", False)
+            c = drv_solve.solve_case(s, len(cases), rail_rep=rr, **kw)
+            c["skeleton"] = True
+            cases.append(c)
+            structs.add(struct_digest(c["st"]))
+            if post:
+                post(s, cases, rng)
+        res.extra["skeleton_states"] = {"model": scnt.get("distinct"), "instantiated": len(picked)}
     validate_cases(ctx, res, cases)
     res.extra["systems"] = n
     res.extra["distinct_structures"] = len(structs)
@@ -177,9 +204,11 @@ STD_ASSUME = ["numbers are compared in exact decimal arithmetic with the two tol
               "projection of System._g / _g.attrs is the abstract state the relations are evaluated on"]
 
 
-def _run(ctx, prop, n_q, n_t, rule, gen_kw=None, case_kw=None, filt=None, variants=1, post=None, extra_fixed=(), prefix=None, matrix=(0, 0)):
+def _run(ctx, prop, n_q, n_t, rule, gen_kw=None, case_kw=None, filt=None, variants=1, post=None, extra_fixed=(), prefix=None, matrix=(0, 0),
+         skel=(0, 0), skel_want=None):
     n = n_q if ctx.quick else n_t
-    res, cases = solve_campaign(ctx, n, gen_kw, case_kw, filt, variants, post, matrix=matrix[0] if ctx.quick else matrix[1])
+    res, cases = solve_campaign(ctx, n, gen_kw, case_kw, filt, variants, post, matrix=matrix[0] if ctx.quick else matrix[1],
+                                skel=skel[0] if ctx.quick else skel[1], skel_want=skel_want)
     if extra_fixed:
         extra = []
         for b in extra_fixed:
@@ -224,14 +253,15 @@ def run_c04(ctx):
     return _run(ctx, "C04", 150, 3000,
                 "systems with 0 V sources, phase-inactive sources / converters / regulators / switches / muxes and muxes without "
                 "live input; every row below a dead element must be exactly zero, sleeping components draw exactly iis",
-                gen_kw=dict(neg=0.15, zero_src=0.3, tables=0.1), case_kw=std_case_kw, matrix=(200, 2000))
+                gen_kw=dict(neg=0.15, zero_src=0.3, tables=0.1), case_kw=std_case_kw, matrix=(200, 2000), skel=(200, 12000))
 
 
 def run_c05(ctx):
     return _run(ctx, "C05", 140, 2500,
                 "systems with a PMux (1-4 inputs, fed from sources / components / the same source, scalar and per-input rs, "
                 "0 V and phase-inactive inputs); mux rows are held to the C05 clauses",
-                gen_kw=dict(neg=0.15, zero_src=0.3, tables=0.2), case_kw=std_case_kw, filt=has_mux, matrix=(200, 2000))
+                gen_kw=dict(neg=0.15, zero_src=0.3, tables=0.2), case_kw=std_case_kw, filt=has_mux, matrix=(200, 2000),
+                skel=(200, 12000), skel_want=lambda S: any(c["cls"] == "PMux" and len(S["par"][n]) > 1 for n, c in S["comps"].items()))
 
 
 def has_phases(sysst):
@@ -277,7 +307,8 @@ def run_c07(ctx):
                 "multi-source and single-source systems, with and without mux and phases, energy=True in half of the cases; "
                 "Domain column, Subsystem, System total, System average and energy cells are recomputed from the component rows",
                 gen_kw=dict(neg=0.15, zero_src=0.15, tables=0.1),
-                case_kw=lambda rng, s: dict(ta=25.0, energy=rng.random() < 0.7, rail_rep=False), post=c07_post)
+                case_kw=lambda rng, s: dict(ta=25.0, energy=rng.random() < 0.7, rail_rep=False), post=c07_post,
+                skel=(150, 8000), skel_want=lambda S: sum(1 for c in S["comps"].values() if c["cls"] == "Source") > 1)
 
 
 def has_rails(sysst):
@@ -290,7 +321,8 @@ def run_c08(ctx):
                 "recorded from the same state and related by TLC: rail set per phase, voltage of the owner, sums over the fed components, "
                 "union of warnings",
                 gen_kw=dict(neg=0.15, zero_src=0.15, tables=0.1, limits=gen.random_limits),
-                case_kw=lambda rng, s: dict(ta=25.0, rail_rep=True))
+                case_kw=lambda rng, s: dict(ta=25.0, rail_rep=True),
+                skel=(150, 8000), skel_want=lambda S: any(c["rail"] for c in S["comps"].values()))
 
 
 def replay_solve(ctx, path):
